@@ -250,7 +250,7 @@ let do_opt rest =
   let gid = String.trim rest in
   let (g, _) = Hashtbl.find grammars gid in
   let (_, stable) = x_fs_table g in
-  print_endline (Printf.sprintf "opt %s :: stable=%d %s" gid (if stable then 1 else 0) (sexp_of_grammar (x_optimize g)))
+  print_endline (Printf.sprintf "opt %s :: stable=%d,optok=%d %s" gid (if stable then 1 else 0) (if x_opt_ok g then 1 else 0) (sexp_of_grammar (x_optimize g)))
 
 (* diag <id> (rg (def name expr) ...) *)
 let do_diag rest =
